@@ -320,7 +320,7 @@ Definition w6 : list Z :=
 Example w6_container_level :
   exists d, read_psd raw_codec w6 = Ok d /\ resave_guard d = true /\
     map (fun r => map tb_data (r_blocks r)) (doc_records d) = [[[0;0;0;1; 0;0;0;7]]].
-Proof. eexists. split; [vm_compute; reflexivity|]. split; vm_compute; reflexivity. Qed.
+Proof. eexists. split; [vm_compute; reflexivity|]. split; [vm_compute; reflexivity|vm_compute; reflexivity]. Qed.
 
 (* ------------------------------------------------------------------ stage 3: the other modelled payload classes
    (Psd/ResavePayload.v over Psd/Effects.v, Adjust.v, Vector.v, Patterns.v, Descriptor.v): for EVERY byte string the class
@@ -504,6 +504,6 @@ Example api_open_outcomes_witnesses :
 Proof.
   split; [|split].
   - do 2 eexists. split; [vm_compute; reflexivity|]. split; [vm_compute; reflexivity|]. split; reflexivity.
-  - eexists. split; vm_compute; reflexivity.
-  - eexists. split; vm_compute; reflexivity.
+  - eexists. split; [vm_compute; reflexivity|vm_compute; reflexivity].
+  - eexists. split; [vm_compute; reflexivity|vm_compute; reflexivity].
 Qed.
